@@ -378,6 +378,8 @@ pub fn step(p: &Profile) -> BoxedStrategy<Step> {
             Just(vec![0x10u8, 0x00]),                                   // client-only type
             Just(vec![0xD0u8, 0x01, 0x00]),                             // PINGRESP with a body
             Just(vec![0x30u8, 0x05, 0x00, 0x09, 0x61, 0x00, 0x00]),     // topic length past the packet
+            Just(vec![0x20u8, 0x03, 0x00, 0x00, 0x00]),                 // a second, well-formed CONNACK
+            Just(vec![0x20u8, 0x03, 0x01, 0x00, 0x00]),
             prop::collection::vec(any::<u8>(), 1..12),
         ];
         alts.push((p.w_raw, raw.prop_map(|b| Step::Broker(BrokerAct::Raw(b))).boxed()));
